@@ -14,9 +14,9 @@ import vlib
 LEVEL = "model_checking"
 
 
-def consts(n, maxt, md, calls, due=True, atomic=True, fault="none", reset=True, rep=0):
+def consts(n, maxt, md, calls, due=True, atomic=True, fault="none", reset=True, rep=0, elem=True, qelem=True):
     return {"NTasks": n, "MaxT": maxt, "MD": md, "MaxCalls": calls, "DueCheck": due, "AtomicHandlers": atomic,
-            "Fault": '"%s"' % fault, "ResetUnderLock": reset, "RepIv": rep}
+            "Fault": '"%s"' % fault, "ResetUnderLock": reset, "RepIv": rep, "SchedElemCheck": elem, "QueueElemCheck": qelem}
 
 
 def cex_steps(r):
@@ -37,21 +37,23 @@ CEX = {}
 
 
 def model_check(ctx, quick):
-    inv = ["NoSelfOverlap", "NoEarlyStart", "NothingLost", "NoStartAfterCancel", "NoEarlyOvertime"]
+    inv = ["NoSelfOverlap", "NoEarlyStart", "NothingLost", "NoStartAfterCancel", "NoEarlyOvertime", "NoExtraRun"]
     runs = [consts(2, 3, 10, 3), consts(2, 3, 10, 3, rep=1)] if quick else \
         [consts(2, 3, 10, 4), consts(2, 3, 2, 3), consts(3, 2, 10, 3), consts(2, 4, 10, 3, rep=2), consts(2, 3, 2, 4, rep=1)]
     # (key, constants, invariants, must hold)
     jobs = [("hold%d" % i, c, inv, True) for i, c in enumerate(runs)]
     # model-level reproduction of the recorded findings (informational: never a verdict)
-    jobs += [("cex-nodue", consts(2, 3, 10, 3, due=False, atomic=False), ["NoEarlyStart"], False),
+    jobs += [("cex-nodue", consts(2, 3, 10, 3, due=False, atomic=False, qelem=False, elem=False), ["NoEarlyStart"], False),
              ("cex-lost", consts(2, 3, 2, 3), ["NoLostSubmission"], False),
-             ("cex-stale", consts(2, 3, 10, 3, atomic=False), ["NoEarlyStart"], False),
-             ("cex-reset", consts(2, 3, 10, 3, reset=False), ["NoEarlyStart"], False)]
+             ("cex-stale", consts(2, 3, 10, 3, atomic=False, qelem=False, elem=False), ["NoEarlyStart"], False),
+             ("cex-reset", consts(2, 3, 10, 3, reset=False), ["NoEarlyStart"], False),
+             # F-C07-5 (repaired): the schedule handler's stale decision runs a task a second time
+             ("cex-stalerun", consts(2, 3, 2, 3, atomic=False, elem=False), ["NoExtraRun"], False)]
     # plausible regressions modelled as fault variants: their counterexamples are adversarial scripts that the
     # unchanged code passes and a tree with that regression fails
     faults = (("cancelctx", "NoStartAfterCancel", 10), ("overtimenodue", "NoEarlyOvertime", 10), ("lateexecuting", "NoSelfOverlap", 2))
     for fault, invariant, md in faults:
-        jobs.append(("cex-" + fault, consts(2, 3, md, 4, atomic=(fault != "lateexecuting"), fault=fault), [invariant], False))
+        jobs.append(("cex-" + fault, consts(2, 3, md, 3, atomic=(fault != "lateexecuting"), fault=fault), [invariant], False))
 
     def job(j):
         key, c, invs, must = j
@@ -61,8 +63,9 @@ def model_check(ctx, quick):
                             want_ok=False, count=False, workers=1)   # one worker: the same shortest counterexample every run
     res = dict(ctx.pmap(job, jobs, par=4))
     names = {"cex-nodue": "pinned_tree_schedule_handler_without_due_check", "cex-lost": "requeue_while_running_past_max_delay",
-             "cex-stale": "stale_handler_decision_windows", "cex-reset": "executeAt_cleared_without_lock"}
-    mds = {"cex-lost": 2, "cex-lateexecuting": 2}
+             "cex-stale": "stale_handler_decision_windows", "cex-reset": "executeAt_cleared_without_lock",
+             "cex-stalerun": "stale_schedule_decision_runs_a_task_twice"}
+    mds = {"cex-lost": 2, "cex-lateexecuting": 2, "cex-stalerun": 2}
     info = {}
     for key, r in res.items():
         if key.startswith("cex-"):
